@@ -4,6 +4,7 @@ import (
 	"bytes"
 	"fmt"
 	"runtime"
+	"syscall"
 
 	nas "github.com/free5gc/nas"
 
@@ -87,6 +88,19 @@ const (
 	mallocPerOct  = 4
 )
 
+func cpuNanos() int64 {
+	var ru syscall.Rusage
+	if syscall.Getrusage(syscall.RUSAGE_SELF, &ru) != nil {
+		return 0
+	}
+	return ru.Utime.Nano() + ru.Stime.Nano()
+}
+
+const (
+	cpuBaseNs     = 50e6 // 50 ms
+	cpuPerOctetNs = 5e3  // 5 µs per input octet (normal cost is about 0.08 µs)
+)
+
 // oracle "meter": B=[input] I=[entry] — allocation bound. Meaningful only when no
 // other goroutine allocates (solo shard, GOMAXPROCS=1) and in replay.
 func c01Meter(c *core.Ctx, k *core.Case) {
@@ -116,6 +130,33 @@ func c01Meter(c *core.Ctx, k *core.Case) {
 	}
 	if dM > limM {
 		c.Fail(k, "over-allocation:mallocs:"+epNames[ep], fmt.Sprintf("%s on %d octets made %d allocations (bound %d = 256 + 4·len); input %s", epNames[ep], len(b), dM, limM, hx(b)))
+	}
+	// work bound, in CPU time of this process (not wall-clock: descheduling does not
+	// count; the shard is alone in its process with GOMAXPROCS=1). Only long inputs
+	// are judged, the bound is ~400 times the normal cost, and an excess must
+	// repeat three times (minimum taken) before it is reported.
+	if len(b) >= 4096 {
+		limC := int64(cpuBaseNs + cpuPerOctetNs*float64(len(b)))
+		best := int64(1) << 62
+		for try := 0; try < 3; try++ {
+			in2 := cloneB(b)
+			t0 := cpuNanos()
+			_, _ = decode3(in2, ep)
+			d := cpuNanos() - t0
+			if d < best {
+				best = d
+			}
+			if best <= limC {
+				break
+			}
+		}
+		c.Count("cpu_metered_calls", 1)
+		if best > c.Report().Counters["max_cpu_ns_one_call"] {
+			c.Report().Counters["max_cpu_ns_one_call"] = best
+		}
+		if best > limC {
+			c.Fail(k, "over-work:cpu:"+epNames[ep], fmt.Sprintf("%s on %d octets burned %.0f ms CPU in the best of three runs (bound %.0f ms = 50 ms + 5 µs·len; normal cost is a few ms)", epNames[ep], len(b), float64(best)/1e6, float64(limC)/1e6))
+		}
 	}
 }
 
@@ -170,6 +211,7 @@ func init() {
 		Assumptions: []string{
 			"'work' is observed through termination (journal + two-stage hang rule) and allocation counters; a purely computational slowdown that allocates nothing and finishes within the watchdog is not observable",
 			"allocation bound: ΔTotalAlloc <= 8 KiB + 64·len + 3·65536, ΔMallocs <= 256 + 4·len, measured with GOMAXPROCS=1 and no other goroutine",
+			"work bound for inputs of 4096 octets and more: process CPU time (getrusage) of one call <= 50 ms + 5 µs·len, best of three runs — about 60× the normal cost, so only super-linear behaviour exceeds it",
 		},
 		Oracles:      map[string]func(*core.Ctx, *core.Case){"total": c01Total, "meter": c01Meter},
 		StallSeconds: 30,
@@ -199,8 +241,8 @@ func init() {
 				f = append(f, "path never reached: "+k)
 			}
 		}
-		if cnt["metered_calls"] == 0 {
-			f = append(f, "allocation meter did not run")
+		if cnt["metered_calls"] == 0 || cnt["cpu_metered_calls"] == 0 {
+			f = append(f, "allocation / CPU meter did not run")
 		}
 		if cnt["inputs_ge_65536"] == 0 {
 			f = append(f, "no input of 65536 octets or more")
@@ -389,7 +431,7 @@ func init() {
 						b = pl.Bytes()
 					case 5:
 						if i%60 == 5 {
-							b = longInput(c.R, def, i/60, []int{1000, 16000, 70000}[(i/60)%3])
+							b = longInput(c.R, def, i/60, []int{5000, 16000, 70000}[(i/60)%3])
 						} else {
 							b = append(refcodec.MinimalBody(def, c.R)[:def.HeaderLen()], c.R.Bytes(c.R.Intn(65))...)
 						}
